@@ -429,3 +429,10 @@ def _newalign(X, ins, argv):
     else:
         X.hyp(v != 0)
     return [v]
+
+
+@ext('github.com/fredericlemoine/gostats.Exp')
+def _gostats_exp(X, ins, argv):
+    r = X.w.fresh('expdraw', z3.RealSort())
+    X.hyp(r >= 0)          # a draw from an exponential distribution is non-negative (trusted)
+    return [r]
